@@ -52,15 +52,20 @@ fn run_tight(rng: &mut StdRng, run_id: usize, p: &Params) {
     ev!("{{\"ev\":\"reset\",\"beh\":{},\"epilogue\":\"random\"}}", run_id);
     let mut w = World::new(0, 1);
     w.st.quiet_survey = true;
-    let route = rng.random_range(0..4);
+    let route = rng.random_range(0..5);
     let sf = [0i64, 0, 4, 16][rng.random_range(0..4)];
     let (mf, tf, kf, df, ff) = match route {
         0 => (5, 5, 5, 1, 1),
         1 => (13, 1, 1, 1, 1),
         2 => (1, 1, 1, 7, 8),
-        _ => (7, 1, 1, 7, 1),
+        3 => (7, 1, 1, 7, 1),
+        // route 4 (the sleep promise after INCREMENTAL cycles): reclaiming one garbage object pays for two
+        // allocations, so the call that finishes a cycle usually begins with a debt that its observed destructs and
+        // releases alone pay for; survivors come and go, so consecutive cycles have different wake-up amounts
+        _ => (1, 1, 1, 16, 16),
     };
-    w.set_pacing_q(sf, 0, mf, tf, kf, df, ff);
+    let (sf, ms) = if route == 4 { ([8i64, 16, 24][rng.random_range(0..3)], rng.random_range(0..3)) } else { (sf, 0) };
+    w.set_pacing_q(sf, ms, mf, tf, kf, df, ff);
     let mut n = 0usize; // chain length
     let mut g = 0usize; // garbage / shell counter
     for _step in 0..p.steps {
@@ -102,6 +107,30 @@ fn run_tight(rng: &mut StdRng, run_id: usize, p: &Params) {
                     g += 1;
                     w.mutate("garbage", move |st, mc, _root| {
                         st.alloc(mc, Kind::N, &format!("g{gi}"));
+                    });
+                }
+                4 => {
+                    g += 1;
+                    let keep = rng.random_range(0..3) == 0;
+                    let shed = rng.random_range(0..12) == 0;
+                    w.edit_root(Via::MutateRoot, move |st, mc, root| {
+                        st.survey(mc, root, None);
+                        let name = format!("m{gi}");
+                        let c = st.alloc(mc, Kind::N, &name);
+                        let cs = st.serial_of(&name).unwrap();
+                        if keep && root.strong.len() < 48 {
+                            root.strong.push(c);
+                            st.root_s.push(cs);
+                            ev!("{{\"ev\":\"store\",\"a\":{},\"p\":0,\"c\":{},\"path\":\"mutate_root\",\"effective\":true}}", st.id, cs);
+                        }
+                        if shed {
+                            // drop most of the survivors at once
+                            while st.root_s.len() > 2 {
+                                let c = st.root_s.remove(0);
+                                root.strong.remove(0);
+                                ev!("{{\"ev\":\"remove\",\"a\":{},\"p\":0,\"c\":{},\"path\":\"mutate_root\"}}", st.id, c);
+                            }
+                        }
                     });
                 }
                 _ => {
